@@ -8,6 +8,21 @@ VERIF = Path(__file__).resolve().parent.parent
 ALL = [f"C{n:02d}" for n in range(1, 19)]
 
 CHECKS = {
+    "C01": dict(
+        level="model_checking",
+        text="Family S: TLC enumerates every document (token stream of a marko-shaped AST: paragraph, heading, code, blank line, quote, "
+             "tight/loose list, item) of spec/RenderRead.tla up to the bound, renders it with the renderer machine spec/Render.tla (one action "
+             "per render_* call, carrying prefix / second_prefix / suppress_item_break / skip_next_blank_line / tightness) and reads the "
+             "emitted lines back with CommonMark's container rules (spec/Reader.tla). Every realisable document is formatted by the real "
+             "reformat_text; spec/DocTrace.tla validates each observation: machine lines = observed lines (drift), Read(observed lines) = "
+             "document, and -- the verdict -- equal normalised trees of input and output for the real marko AND markdown-it. Family T: 8 "
+             "container paths x 30 structure-looking words at every non-initial position x widths x {fill, semantic}; paragraph lines are "
+             "validated against the wrapper machines (WrapTrace / SentenceTrace) and the tree predicate.",
+        note="Trusted: the two real parsers as projections (harness/project.py), the concretiser harness/docgen.py. Inline fidelity is "
+             "covered only through the tree comparison on generated texts. A failing case is excused only if it is step-for-step as-is "
+             "model behaviour and an open finding's trigger is present (D2, D21, D31).",
+        technique="TLA+ model checking (TLC) of Render/Reader composition + spec->code replay + trace validation (DocTrace.tla)",
+        design="§6 C01, §12"),
     "C05": dict(
         level="model_checking",
         text="TLC explores every behaviour of the implementation-shaped greedy-fill machine (spec/Wrap.tla) within "
